@@ -50,6 +50,13 @@ def spy(gate, a, pulse_desc, seed):
     import quantum_gates._gates.factories as F
     from quantum_gates._gates.integrator import Integrator
     fac = getattr(F, FACT[gate])(Integrator(gc.build_pulse(pulse_desc)))
+    via = a.get("_via")
+    if via == "deepcopy":                        # what the simulator does with the gate set for every shot
+        import copy
+        fac = copy.deepcopy(fac)
+    elif via == "pickle":                        # what a process pool does with it
+        import pickle
+        fac = pickle.loads(pickle.dumps(fac))
     calls, krons = [], []
     restore = []
     for attr, sub in list(vars(fac).items()):
@@ -197,6 +204,10 @@ def main(ctx):
             for r in range(reps):
                 a = make_args(rng, mode)
                 pd = pds[r % len(pds)]
+                if r % 4 == 1:
+                    a["_via"] = "deepcopy"       # the factory object is a deep copy (as inside a simulator shot) ...
+                elif r % 4 == 3 and pd[0] != "user-smooth":
+                    a["_via"] = "pickle"         # ... or went through pickle (as inside a process pool)
                 seed = rng.randrange(2 ** 31)
                 res = oracle(gate, a, pd, seed)
                 ctx.count()
